@@ -1,6 +1,7 @@
 package main
 
 import (
+	"os"
 	"fmt"
 	"reflect"
 	"regexp"
@@ -151,6 +152,7 @@ func specAccept(sel string, f gts.Feature) (bool, bool) {
 }
 
 func runC19(o *Out) {
+	runC19CLI(o)
 	keys := []string{"gene", "CDS", "source"}
 	names := []string{"gene", "note", "product"}
 	var feats []gts.Feature
@@ -326,6 +328,74 @@ func runC19(o *Out) {
 				c := fam[k]
 				if gts.LocationLess(a, b) && gts.LocationLess(b, c) && !gts.LocationLess(a, c) {
 					o.Violate("less-not-transitive", join("loc_less", locSx(a), locSx(b), locSx(c)), "")
+				}
+			}
+		}
+	}
+}
+
+// runC19CLI: gts select combines its selectors as a union, -v takes the
+// complement of that union, source features are always kept, -s restricts to
+// one strand.  The expected table is computed with specAccept, not with the
+// command's own filter construction.
+func runC19CLI(o *Out) {
+	if _, err := os.Stat(gtsBin); err != nil {
+		return
+	}
+	rec := mkRecord(gts.Linear, 60)
+	text := gbText(rec)
+	sets := [][]string{{"gene"}, {"CDS"}, {"gene", "CDS"}, {"CDS/gene=b", "misc_feature"}, {"mRNA", "regulatory/note=r1", "gene"},
+		{"/gene=a"}, {"/gene=a", "/note"}, {"nothing"}, {"nothing", "CDS"}}
+	sb := newSandbox()
+	defer sb.close()
+	for _, sels := range sets {
+		for _, invert := range []bool{false, true} {
+			for _, strand := range []string{"", "forward", "reverse"} {
+				args := []string{"select", "--no-cache"}
+				if invert {
+					args = append(args, "-v")
+				}
+				if strand != "" {
+					args = append(args, "-s", strand)
+				}
+				args = append(args, sels...)
+				line := "gts " + strings.Join(args, " ")
+				o.Dist["cli-select"]++
+				r := sb.run(args, text, false, false)
+				outs, ok := parseRecords(r.stdout)
+				if r.code != 0 || !ok || len(outs) != 1 {
+					if len(sels) == 0 {
+						continue // no selector at all: usage error is acceptable
+					}
+					o.Violate("select-command-failed", line, fmt.Sprintf("exit %d", r.code))
+					continue
+				}
+				var want []string
+				for _, f := range rec.Features() {
+					match := false
+					for _, sel := range sels {
+						if acc, okSel := specAccept(sel, f); okSel && acc {
+							match = true
+						}
+					}
+					keep := f.Key == "source" || (match != invert)
+					_, isComp := f.Loc.(gts.Complemented)
+					if strand == "forward" && isComp {
+						keep = false
+					}
+					if strand == "reverse" && !isComp {
+						keep = false
+					}
+					if keep {
+						want = append(want, f.Key+" "+f.Loc.String())
+					}
+				}
+				var got []string
+				for _, f := range outs[0].Features() {
+					got = append(got, f.Key+" "+f.Loc.String())
+				}
+				if strings.Join(got, "|") != strings.Join(want, "|") {
+					o.Violate("select-cli", line, fmt.Sprintf("kept %v want %v", got, want))
 				}
 			}
 		}
